@@ -49,6 +49,11 @@ def strategy_(g):
         which = g.choice(["p1", "p2", "both"])
         case["p1b"] = other_repr(case["p1"]) if which in ("p1", "both") else case["p1"]
         case["p2b"] = other_repr(case["p2"]) if which in ("p2", "both") else case["p2"]
+    # a third state: the measurement and (landmark edges) the sensor offset OBJECTS are edited in place - e.g. a calibration
+    # parameter shared by several edges gets a new value - after the edge has been evaluated
+    k0, k1, kz, ko = E.kinds_of(case["ek"])
+    case["z_c"] = g.pose(kz, s=g.choice([1.0, 10.0]))
+    case["off_c"] = g.pose(ko, s=g.choice([1.0, 10.0])) if ko else None
     return case
 
 
@@ -102,7 +107,8 @@ def check(case, ctx):
     n = E.err_dim(ek)
 
     # the Jacobians are requested BEFORE any other query on the fresh edge: they must not depend on earlier calls
-    J_first = [np.array(J, dtype=float) for J in edge.calc_jacobians()]
+    held_raw = edge.calc_jacobians()
+    J_first = [np.array(J, dtype=float) for J in held_raw]
     e0 = np.array(edge.calc_error(), dtype=float)
     if e0.shape != (n,):
         return ctx.fail("error-shape", "calc_error shape %s, expected (%d,)" % (e0.shape, n))
@@ -175,16 +181,12 @@ def check(case, ctx):
         if ctx.check_close("jacobian-vs-CD", "J[%d] vs Richardson CD(calc_error)" % i, Js[i], Jcd, tol1, "edge %s" % ek):
             return
 
-    # ---- history: move the vertices (new state of the same edge object) and ask for the Jacobians first
-    if "p1b" in case:
-        ctx.event("alt:" + case["alt"])
-        v1.pose = gs.mk_pose(case["p1b"])
-        v2.pose = gs.mk_pose(case["p2b"])
+    def state_check(sig, what, S_now):
+        """Jacobians requested FIRST in the current state of the same edge object, compared with AD of the reference."""
         Jn = [np.array(J, dtype=float) for J in edge.calc_jacobians()]
         en = np.array(edge.calc_error(), dtype=float)
         rp1, rp2, rz, roff = E.ref_operands(edge)
         eref, J0, J1 = E.ref_error_and_jacobians(ek, rp1, rp2, rz, roff)
-        Sb = max(S_, gs.max_trans(case["p1b"], case["p2b"]))
         sgn = 1.0
         both = False
         if ek == "odo:se3":
@@ -205,11 +207,43 @@ def check(case, ctx):
                         Jr[3:] = -Jr[3:]
                 else:
                     Jr[3:] = sgn * Jr[3:]
-            tol2 = 1e-11 * (1.0 + Sb * rowT[:, None] * colR[None, :])
-            if ctx.check_close("jacobian-stale-after-state-change", "J[%d] after moving the vertices vs AD(reference)" % i, Jn[i], Jr, tol2, "edge %s, %s" % (ek, case["alt"])):
-                return
+            tol2 = 1e-11 * (1.0 + S_now * rowT[:, None] * colR[None, :])
+            if ctx.check_close(sig, "J[%d] %s vs AD(reference)" % (i, what), Jn[i], Jr, tol2, "edge %s" % ek):
+                return True
+        return False
+
+    # ---- history: move the vertices (new state of the same edge object) and ask for the Jacobians first
+    if "p1b" in case:
+        ctx.event("alt:" + case["alt"])
+        v1.pose = gs.mk_pose(case["p1b"])
+        v2.pose = gs.mk_pose(case["p2b"])
+        Sb = max(S_, gs.max_trans(case["p1b"], case["p2b"]))
+        if state_check("jacobian-stale-after-state-change", "after moving the vertices (%s)" % case["alt"], Sb):
+            return
         v1.pose = gs.mk_pose(case["p1"])
         v2.pose = gs.mk_pose(case["p2"])
+
+    # ---- history: the measurement / offset objects are edited IN PLACE (same objects, new numbers)
+    if "z_c" in case:
+        z_old = np.array(np.asarray(edge.estimate), dtype=float)
+        np.asarray(edge.estimate)[:] = np.asarray(gs.mk_pose(case["z_c"]), dtype=float)
+        Sc = max(S_, gs.max_trans(case["z_c"]))
+        off_old = None
+        if case.get("off_c") is not None:
+            off_old = np.array(np.asarray(edge.offset), dtype=float)
+            np.asarray(edge.offset)[:] = np.asarray(gs.mk_pose(case["off_c"]), dtype=float)
+            Sc = max(Sc, gs.max_trans(case["off_c"]))
+        ctx.event("measurement-and-offset-edited-in-place")
+        if state_check("jacobian-stale-after-in-place-edit", "after editing the measurement / offset objects in place", Sc):
+            return
+        np.asarray(edge.estimate)[:] = z_old
+        if off_old is not None:
+            np.asarray(edge.offset)[:] = off_old
+
+    # ---- the matrices returned by the very first call are the caller's: later calls must not have overwritten them
+    for i in range(2):
+        if not np.array_equal(np.asarray(held_raw[i], dtype=float), J_first[i]):
+            return ctx.fail("jacobian-result-overwritten-by-later-call", "the matrix returned by the first calc_jacobians() call (vertex %d, edge %s) changed during later calls" % (i, ek))
 
     # the vertices were restored bit-exactly by our own probing
     if gs.bits(v1.pose) != gs.bits(gs.mk_pose(case["p1"])) or gs.bits(v2.pose) != gs.bits(gs.mk_pose(case["p2"])):
